@@ -50,6 +50,13 @@ def cases(tier, seed):
                                 alt = [(b2, (B * W) // b2) for b2 in range(1, B * W + 1) if (B * W) % b2 == 0 and 2 <= (B * W) // b2 <= maxw]
                                 c["warm"] = [list(rnd.choice(alt))] + ([[B, W]] if rnd.random() < 0.5 else [])
                             out.append(c)
+    # the non-autoregressive (heat-map) policy machinery under beam search
+    for name in ("tsp", "cvrp", "op"):
+        for n in ((6, 9) if q else (5, 6, 8, 10)):
+            for W in (2, 3, n):
+                for B in ((1, 3) if q else (1, 2, 5)):
+                    for sb in (False, True):
+                        out.append(dict(env=name, n=n, B=B, W=W, select_best=sb, s=rnd.randrange(10**6), wseed=rnd.randrange(4), policy="nar"))
     return out
 
 
